@@ -146,7 +146,7 @@ fn check_cmd(args: &[String]) -> i32 {
           "a state in which no guard holds is not pinned down by C17 and is not judged (generated machines usually end their branches with a wildcard)".into(),
           "array-pattern states are generated as one family (a Scan state destructuring a [u64] vector with [a, b | tail], [x | rest] and [] arms); the vector itself is not parsed back from the trace, only the accumulator".into(),
         ],
-        expected_reach: vec!["reach:terminating".into(), "reach:non-terminating".into(), "fault:transition-limit-fired".into(), "fault:transition-to-undeclared-state".into(), "fault:declared-state-without-arm".into(), "fault:wrong-argument-kind".into(), "fault:wrong-argument-count".into(), "fault:overflow-inside-transition".into(), "reach:invocation-after-a-failed-one-follows".into(), "reach:array-pattern-machine".into(), "reach:array-pattern-machine-general".into(), "reach:array-spread-with-prefix-and-suffix".into()],
+        expected_reach: vec!["reach:terminating".into(), "reach:non-terminating".into(), "fault:transition-limit-fired".into(), "fault:transition-to-undeclared-state".into(), "fault:declared-state-without-arm".into(), "fault:wrong-argument-kind".into(), "fault:wrong-argument-count".into(), "fault:wrong-argument-shape".into(), "fault:transition-to-state-the-specification-does-not-declare".into(), "fault:overflow-inside-transition".into(), "reach:invocation-after-a-failed-one-follows".into(), "reach:array-pattern-machine".into(), "reach:array-pattern-machine-general".into(), "reach:array-spread-with-prefix-and-suffix".into()],
         exhaustive: false,
         extra: json!({}),
       }
@@ -169,7 +169,7 @@ fn check_cmd(args: &[String]) -> i32 {
           "a panic or error inside step() ends that replica's part of the run (C19 does not promise its absence)".into(),
           "'contains no assignment' is decided conservatively on the text: any '=' outside := == != <= >= => ..= counts as an assignment".into(),
         ],
-        expected_reach: vec!["reach:step-ok".into(), "reach:programs-without-assignment".into(), "reach:programs-with-assignment".into(), "reach:runs-where-steps-changed-state".into(), "fault:step-split".into(), "fault:profile-knob".into(), "fault:trace-knob".into()],
+        expected_reach: vec!["reach:step-ok".into(), "reach:programs-without-assignment".into(), "reach:programs-with-assignment".into(), "reach:runs-where-steps-changed-state".into(), "fault:step-split".into(), "fault:profile-knob".into(), "fault:trace-knob".into(), "fault:low-transition-budget-knob".into()],
         exhaustive: false,
         extra: json!({"corpus_programs": corpus_len}),
       }
@@ -196,7 +196,7 @@ fn check_cmd(args: &[String]) -> i32 {
           "CRC-32 detects every burst of at most 32 bits, so t/b/u must be rejected outright; for the other kinds only panic/hang/allocation are judged".into(),
           "hang is decided by the loops' own bounds plus the 60 s watchdog backstop".into(),
         ],
-        expected_reach: vec!["fault:t".into(), "fault:b".into(), "fault:u".into(), "fault:z".into(), "fault:a".into(), "fault:r".into(), "fault:s".into(), "fault:c".into(), "fault:i".into(), "fault:f".into(), "fault:i:short-read".into(), "fault:i:eintr".into(), "fault:i:eio".into(), "fault:i:seek-failed".into(), "fault:i:early-eof".into(), "fault:i:rewritten-underneath".into(), "reach:files-emitted".into(), "reach:loaded-through-real-file".into()],
+        expected_reach: vec!["fault:t".into(), "fault:b".into(), "fault:u".into(), "fault:z".into(), "fault:a".into(), "fault:r".into(), "fault:s".into(), "fault:c".into(), "fault:n".into(), "fault:i".into(), "fault:f".into(), "fault:i:short-read".into(), "fault:i:eintr".into(), "fault:i:eio".into(), "fault:i:seek-failed".into(), "fault:i:early-eof".into(), "fault:i:rewritten-underneath".into(), "reach:files-emitted".into(), "reach:loaded-through-real-file".into()],
         exhaustive: false,
         extra: json!({"corpus_programs": corpus_len}),
       }
